@@ -7,6 +7,7 @@ package types
 //@ def params_small(p) = p.DegreeBits <= 64 && p.Config.RateBits <= 64 && p.Config.CapHeight <= 64 && len(p.ReductionArityBits) <= 64 && forall(k, 0, len(p.ReductionArityBits), p.ReductionArityBits[k] <= 64)
 
 //@ func (p *FriParams) TotalArities() (res int)
+//@   locals res b
 //@   props C20
 //@   plain
 //@   requires params_small(p)
@@ -39,6 +40,7 @@ package types
 //@ def sameU64s(a, b) = len(a) == len(b) && forall(k, 0, len(a), a[k] == b[k])
 
 //@ func ReadCommonCircuitData(path string) (res CommonCircuitData)
+//@   locals jsonFile err rawBytes raw commonCircuitData selectorGroupStart selectorGroupEnd group
 //@   props C19 C18
 //@   plain
 //@   ghost raw CommonCircuitDataRaw
@@ -65,6 +67,7 @@ package types
 // the sibling list of a Merkle proof object is copied element by element (the decoding of the object itself is
 // encoding/json's)
 //@ func (m *MerkleProofRaw) UnmarshalJSON(data []byte) (err error)
+//@   locals siblings err
 //@   props C19
 //@   plain
 //@   ghost siblings struct{Siblings []string}
@@ -75,24 +78,28 @@ package types
 // the readers decode into a fresh local structure and return it; they write nothing else (frame obligation: no
 // package-level state, nothing reachable from the arguments) - what encoding/json puts into the structure is assumed
 //@ func ReadProofWithPublicInputsFromRequest(data []byte) (res ProofWithPublicInputsRaw)
+//@   locals raw err
 //@   props C19
 //@   plain
 //@   ghost raw ProofWithPublicInputsRaw
 //@   ensures len(res.PublicInputs) == len(raw.PublicInputs) && len(res.Proof.WiresCap) == len(raw.Proof.WiresCap)
 
 //@ func ReadVerifierOnlyCircuitDataFromRequest(data []byte) (res VerifierOnlyCircuitDataRaw)
+//@   locals raw err
 //@   props C19
 //@   plain
 //@   ghost raw VerifierOnlyCircuitDataRaw
 //@   ensures res.CircuitDigest == raw.CircuitDigest && len(res.ConstantsSigmasCap) == len(raw.ConstantsSigmasCap)
 
 //@ func ReadProofWithPublicInputs(path string) (res ProofWithPublicInputsRaw)
+//@   locals jsonFile err rawBytes raw
 //@   props C19
 //@   plain
 //@   ghost raw ProofWithPublicInputsRaw
 //@   ensures len(res.PublicInputs) == len(raw.PublicInputs) && len(res.Proof.WiresCap) == len(raw.Proof.WiresCap)
 
 //@ func ReadVerifierOnlyCircuitData(path string) (res VerifierOnlyCircuitDataRaw)
+//@   locals jsonFile err rawBytes raw
 //@   props C19
 //@   plain
 //@   ghost raw VerifierOnlyCircuitDataRaw
